@@ -411,6 +411,36 @@ def rule_sysinfo(ctx):
                         lits.add(s[1])
     need = {"processor", "model", "stepping", "cpu family", "vendor_id"}
     ctx.check(need <= lits, R, "cpuinfo-keys", cb.where(0), "cpuinfo keys %s are looked up" % sorted(need), "cpuinfo keys present: %s" % sorted(lits & need))
+    # field formulas, evaluated with the cpuinfo values keyed by the NAME each table entry was created with:
+    #   number_of_processors = last 'processor' id + 1, processor_level = 'cpu family', processor_revision = 'model' << 8 | 'stepping'
+    from engine import ipe
+    spec = {"number_of_processors": lambda v: (v["processor"] + 1) & 0xff, "processor_level": lambda v: v["cpu family"] & 0xffff,
+            "processor_revision": lambda v: ((v["model"] << 8) | v["stepping"]) & 0xffff}
+    for fld, want in spec.items():
+        sts = fields.get(fld, [])
+        if len(sts) != 1:
+            ctx.violated(R, ("field", fld), cb.where(0), "expected one store to MDRawSystemInfo.%s in write_cpu_information, found %d" % (fld, len(sts)))
+            continue
+        bi, si, e = sts[0]
+        bad = None
+        try:
+            for vals in ({"processor": 7, "model": 0x9e, "stepping": 0xa, "cpu family": 6}, {"processor": 0, "model": 1, "stepping": 2, "cpu family": 23}, {"processor": 63, "model": 0x55, "stepping": 7, "cpu family": 15}):
+                def leaf(x, vals=vals):
+                    x = core(x)
+                    if x[0] == "field" and x[2] == "value":
+                        c_ = strip(x[1])
+                        if c_[0] == "call" and c_[1].endswith("CpuInfoEntry::new"):
+                            nm = [q[1] for q in walk(c_[2][0]) if q[0] == "str"]
+                            if nm and nm[0] in vals:
+                                return (vals[nm[0]], "i32")
+                    return None
+                got = ipe.Eval({}, {}, leaf=leaf).val(e)[0]
+                if got != want(vals):
+                    bad = "cpuinfo %s gives %s = %#x, expected %#x" % (vals, fld, got, want(vals))
+        except ipe.Unsupported as ex:
+            ctx.unproven(R, ("field", fld), cb.where(bi, si), "cannot evaluate %s: %s" % (fld, ex))
+            continue
+        ctx.check(bad is None, R, ("field", fld), cb.where(bi, si), "%s follows the documented formula (3 sample cpuinfo tables)" % fld, bad or "")
     ctx.floor(R, "stores into MDRawSystemInfo in write_cpu_information", sum(len(v) for v in fields.values()), 4)
 
 
